@@ -303,3 +303,7 @@ PROP.obligation('C02.indexes-follow-position', canaries=[
 
 from . import c13 as _c13
 PROP.obligation('C02.compact-signature')(_c13.parse)
+
+
+from . import c06 as _c06
+PROP.obligation('C02.output-script-kept')(_c06.output_script_kept)
